@@ -42,7 +42,7 @@ func (kv *KeyValue) ToBytes() []byte {
 	}
 
 	v := kv.Value.ToBytes()
-	if v == nil {
+	if len(v) == 0 {
 		return nil
 	}
 
